@@ -359,4 +359,14 @@ def run(R):
 
 
 def replay(R, payload):
-    return True
+    """Re-executes the recorded run (generators are deterministic in the seed
+    and tier stored in the replay file) and reports whether a failure of the
+    recorded class is still observed on the current tree."""
+    import random
+    R.tier = payload.get("tier", R.tier)
+    R.rng = random.Random(f"{R.pid}:{payload.get('seed', 0)}")
+    run(R)
+    want = payload.get("what")
+    if payload.get("kind") == "property-violation":
+        return any(v["what"] == want for v in R.violations) if want else bool(R.violations)
+    return bool(R.violations or R.disagreements)
